@@ -166,6 +166,7 @@ pub fn run(ctx: &mut Ctx) {
     ctx.floor("long-trailing", 300);
     ctx.floor("hello.versions", 65536);
     ctx.floor("soup.headers", 12_000_000);
+    ctx.floor("datagram.coincidences", 12);
     ctx.floor("soup.ok", 10_000);
 
     // ------------------------------------------------ all declared lengths (alert records)
@@ -432,6 +433,47 @@ pub fn run(ctx: &mut Ctx) {
         }
     });
     ctx.mark_exhaustive("all 65536 version values in DTLS ClientHello / ServerHello / HelloVerifyRequest");
+
+
+    // ------------------------------------------------ large datagram buffers whose sizes are exact multiples of 65536 (and +-small)
+    ctx.sweep("datagram-size-coincidences", 12, |ctx, idx| {
+        let mut r = Rng::new(idx ^ 0xD6_0000);
+        let k = 1 + (idx % 2) as usize;
+        let delta = [0usize, 1, 13, 14, 20, 27][(idx / 2) as usize % 6];
+        let target = k * 65536 + delta;
+        let mut buf = Vec::new();
+        let mut n = 0usize;
+        while buf.len() < target {
+            let left = target - buf.len();
+            if left < 14 {
+                break;
+            }
+            let mut pl = (left - 13).min(if n < 3 { 1 } else { 16384 });
+            if left - 13 - pl > 0 && left - 13 - pl < 14 {
+                pl -= 15.min(pl - 1);
+            }
+            let h = gen::dtls_hdr(&mut r, 0x14);
+            buf.extend(refenc::dtls_record(&h, &vec![1u8; pl]));
+            n += 1;
+        }
+        let (mut off, mut cnt) = (0usize, 0usize);
+        while off < buf.len() {
+            match parse_dtls_plaintext_record(&buf[off..]) {
+                Ok((rem, _)) => {
+                    off = buf.len() - rem.len();
+                    cnt += 1;
+                }
+                Err(_) => break,
+            }
+        }
+        let many = parse_dtls_plaintext_records(&buf);
+        ctx.eval();
+        ctx.count("datagram.coincidences");
+        ctx.shape(&("dg-size", k, delta, buf.len() == target));
+        if !matches!(&many, Ok((rem, v)) if v.len() == cnt && rem.len() == buf.len() - off) {
+            ctx.violation("c10:datagram:large-buffer-records-differ".into(), json!({"buffer_len": buf.len(), "records_built": n, "record_by_record": cnt, "many": classify(&many).show(), "many_records": many.as_ref().ok().map(|x| x.1.len())}));
+        }
+    });
 
     // ------------------------------------------------ datagrams of several records
     let n = ctx.tier.pick(8000, 80000);
